@@ -119,6 +119,21 @@ def run(ctx):
                    what='COPY TO opens its target for writing without truncating it: exporting a shorter table to the same path leaves '
                         'rows of the previous export at the end of the file')
 
+    R6 = 'C20-R6'
+    ctx.rule(R6, 'ESCAPE means the same on both sides: csv::ReaderBuilder::escape makes the reader drop the character and take the next one '
+                 'literally; csv::Writer only ever uses its escape for QUOTES (and only with double_quote(false)), it never escapes the '
+                 'escape character itself (tried: setting double_quote(false) on both sides still turns `a!b,c` into `ab,c`). So a '
+                 'reader-side escape is sound only if the export escapes that character itself before handing the field to csv::Writer')
+    if ok_anchor:
+        bw, br = builder_calls(prog, W, 'Writer'), builder_calls(prog, R, 'Reader')
+        if 'escape' in br:
+            own = [c for g in prog.group(W) for c in g.calls if re.search(r'str::replace$|String::replace|::escape_', c.name or '')]
+            ctx.ob(R6, 'writer·escapes-the-escape-character', bool(own),
+                   f'reader sets escape: True; the writer escapes the character itself before csv::Writer: {bool(own)}',
+                   [site(br['escape'][0], br['escape'][1].bb)],
+                   what='COPY .. (ESCAPE c): the export writes the escape character bare, the import un-escapes it: `a!b,c` exported with '
+                        'ESCAPE \'!\' is imported as `ab,c`')
+
     R2 = 'C20-R2'
     ctx.rule(R2, 'NULL token agreement: the string ArrayImpl::get_to_string emits for NULL equals the string '
                  'ArrayBuilderImpl::push_str maps to NULL')
